@@ -302,7 +302,7 @@ func ruleClosePair(c *Ctx) {
 							continue
 						}
 						r := eng.Receiver(&d.Call)
-						if r != nil && p.AnyFrom(r, eng.Plain, func(v ssa.Value) bool {
+						if r != nil && p.AnyFrom(r, deepF, func(v ssa.Value) bool {
 							cc, idx, ok := eng.AsResult(v)
 							return ok && idx == 0 && strings.HasPrefix(eng.CalleeName(&cc.Call), "dyn:service.StreamAcceptFunc")
 						}) {
@@ -1382,7 +1382,7 @@ func alignDischarge(c *Ctx, call *ssa.Call) (bool, string) {
 		}
 		for _, a := range p.Origins(ss.Call.Args[0], deepF) {
 			for _, b := range keyO {
-				if a == b || sameFieldLoad(a, b) {
+				if a == b || sameFieldLoad(a, b) || sameFieldLoadDeep(c, a, b) {
 					return true
 				}
 			}
@@ -1439,4 +1439,22 @@ func baseRoot(v ssa.Value) ssa.Value {
 		return v
 	}
 	return v
+}
+
+// sameFieldLoadDeep: loads of the same (type, field) whose bases share an interprocedural origin (e.g. the caller's association
+// parameter and the helper's parameter bound to it).
+func sameFieldLoadDeep(c *Ctx, a, b ssa.Value) bool {
+	t1, f1, b1, ok1 := eng.FieldLoad(a)
+	t2, f2, b2, ok2 := eng.FieldLoad(b)
+	if !(ok1 && ok2 && t1 == t2 && f1 == f2) {
+		return false
+	}
+	for _, x := range c.P.Origins(b1, deepF) {
+		for _, y := range c.P.Origins(b2, deepF) {
+			if baseRoot(x) == baseRoot(y) {
+				return true
+			}
+		}
+	}
+	return false
 }
